@@ -2,6 +2,7 @@
 from lib import core, gen
 
 LEVEL = 'proof'
+BBH_FEATURES = ['oracle']      # harness command families this check needs (fallback build, lib/core.py build_bbh)
 LIMITS_Q = [1, 2, 3, 5, 9, 17, 33, 50, 100, 300]
 PLAIN_BUDGET = 200000
 CERT_T = 2500
